@@ -20,7 +20,7 @@ for e in evs:
     for k in SUM:
         if k in c:
             cov[k] = cov.get(k, 0) + int(c[k])
-    cov.setdefault("samples", []).extend(c.get("samples", [])[:4])
+    cov.setdefault("samples", []).extend((c.get("samples") or [])[:4])
     cov["exhaustive"] = cov.get("exhaustive", True) and bool(c.get("exhaustive", False))
     if c.get("caps"):
         cov.setdefault("caps", []).extend(c["caps"])
